@@ -949,6 +949,21 @@ func plDropScenarios(thorough bool) ([]*plScenario, map[string]map[string]bool) 
 			Drivers: []plDriver{{Kind: "start", Coll: 0}, {Kind: "addpart", Coll: 0, Part: "p1", PartState: pb.PartitionState_PartitionDropped}}})
 		synth["drop:restart-partition"] = map[string]bool{"part/default/c1/p1": true}
 	}
+	// the dropped collection joins a handler that, at that moment, is busy with a pack FORWARDED to it by another handler
+	// (c2 is read from src-dml_0 but lives on tgt-dml_1): the synthetic drop waits in the handler's own queue while the
+	// forwarded pack is being emitted, and must still go through the handler's own path (barrier signal, one drop request)
+	{
+		c1 := mkColl(101, "c1", []string{"src-dml_0", "src-dml_1"}, []string{"tgt-dml_0", "tgt-dml_1"})
+		c2 := mkColl(102, "c2", []string{"src-dml_0"}, []string{"tgt-dml_1"})
+		d := mkColl(103, "d", []string{"src-dml_1"}, []string{"tgt-dml_1"})
+		c1.SeekMs = 990
+		c1.Shards[0].Script = []plPack{pkIns(1000)}
+		c2.Shards[0].Script = []plPack{pkIns(1005)}
+		d.Dropped, d.SeekMs = true, 990
+		out = append(out, &plScenario{Name: "drop:restart-collection-beside-forwarded", SrcN: 2, TgtN: 2, Colls: []*plColl{c1, c2, d},
+			Drivers: []plDriver{{Kind: "start", Coll: 0}, {Kind: "start", Coll: 1}, {Kind: "start", Coll: 2}}, HeavyBound: 1, MsgPosPChannel: true})
+		synth["drop:restart-collection-beside-forwarded"] = map[string]bool{"coll/default/d": true}
+	}
 	// restart from a checkpoint that lies before the drop message of a collection already dropped upstream:
 	// every shard sees a synthetic drop AND re-reads the real one; still exactly one request, after all shards
 	{
